@@ -68,7 +68,7 @@ example :
 says that the value `c` occupies the token segment after `A`; every sub-value of the document
 occupies such a segment by construction of `JVal.toks` — `find_close` at the byte position of its
 open bracket returns the byte position of its own close bracket (the last byte of `c`). -/
-theorem find_close_eq (hasAvx2 : Bool) (d : Doc) (A B : List Tok) (c : JVal)
+theorem find_close_in_context (hasAvx2 : Bool) (d : Doc) (A B : List Tok) (c : JVal)
     (hc : c.isContainer = true) (hocc : d.toks = A ++ c.toks ++ B) :
     findClose (build hasAvx2 d.text) d.text (toksBytes A).length =
       some ((toksBytes A).length + (toksBytes c.toks).length - 1) := by
@@ -87,7 +87,7 @@ segment after `A` in a valid document, `skip_value` at the byte position of its 
 the position of the byte just after its last byte.  For a number the byte following it, if any,
 must not be one of `0-9 - + . e E` (`find_number_end` is greedy over that class); in a document a
 value is followed by whitespace, `,`, `]`, `}` or the end of the text, so this always holds there. -/
-theorem skip_value_eq (hasAvx2 : Bool) (d : Doc) (A B : List Tok) (v : JVal)
+theorem skip_value_in_context (hasAvx2 : Bool) (d : Doc) (A B : List Tok) (v : JVal)
     (hocc : d.toks = A ++ v.toks ++ B)
     (hnum : ∀ n, v = .num n → ∀ b, (toksBytes B).head? = some b → isNumberByte b = false) :
     skipValue (build hasAvx2 d.text) d.text (toksBytes A).length =
@@ -105,5 +105,34 @@ example :
     skipValue (build true d.text) d.text 1 = some 7 ∧ skipValue (build true d.text) d.text 8 = some 14 ∧
     skipValue (build true d.text) d.text 0 = some 15 := by
   refine ⟨rfl, ?_, ?_, ?_, ?_⟩ <;> decide +kernel
+
+/-! ### every container and every value of every valid document
+
+`Doc.occs d` enumerates every value of the document — the root and all nested array items and
+object member values — as `(A, v, B)` with `d.toks = A ++ v.toks ++ B` (`doc_occs`), so the byte
+position of `v` is `(toksBytes A).length` and its byte length `(toksBytes v.toks).length`. -/
+
+/-- For every valid JSON document and every container in it, `find_close` at the container's open
+bracket returns the position of its matching close bracket. -/
+theorem find_close_eq (hasAvx2 : Bool) (d : Doc) (o : Occ) (ho : o ∈ d.occs)
+    (hc : o.2.1.isContainer = true) :
+    findClose (build hasAvx2 d.text) d.text (toksBytes o.1).length =
+      some ((toksBytes o.1).length + (toksBytes o.2.1.toks).length - 1) :=
+  find_close_in_context hasAvx2 d o.1 o.2.2 o.2.1 hc (doc_occs d o ho).1
+
+/-- For every valid JSON document and every value in it (container, string, number, literal),
+`skip_value` at the value's first byte returns the position of the byte just after the value. -/
+theorem skip_value_eq (hasAvx2 : Bool) (d : Doc) (o : Occ) (ho : o ∈ d.occs) :
+    skipValue (build hasAvx2 d.text) d.text (toksBytes o.1).length =
+      some ((toksBytes o.1).length + (toksBytes o.2.1.toks).length) :=
+  skip_value_in_context hasAvx2 d o.1 o.2.2 o.2.1 (doc_occs d o ho).1
+    (fun _ _ b hb => (doc_occs d o ho).2 b hb)
+
+/-- Non-vacuity: `{"k":[1,{}]}` has four values: the object, the array, `1` and `{}`. -/
+example :
+    let d : Doc := ⟨[], .obj [] [.plain ⟨0x6B#8, by decide⟩] [] []
+      (.arr [] (.num ⟨false, .nonzero 0 [], none, none⟩) [] (.cons [] (.obj0 []) [] .nil)) [] .nil, []⟩
+    d.occs.map (fun o => ((toksBytes o.1).length, (toksBytes o.2.1.toks).length)) = [(0, 12), (5, 6), (6, 1), (8, 2)] := by
+  decide
 
 end SV.Props.C32
